@@ -191,6 +191,38 @@ def structural(tier, res):
     # transaction ids carry the per-merchant index
     ok_ids = "'id': f'{merchant_id}_{i}'" in src and 'enumerate(' in src
     out.append(frames.Clause(fi.qualname + '#transaction_ids_unique_per_merchant', ok_ids, "id = f'{merchant_id}_{i}' over enumerate" if ok_ids else 'transaction id lost its index'))
+    # renderers cannot fail with ZeroDivisionError: every division by a data-derived quantity sits under a test of that quantity
+    # (num_months is at least 1 by analyze_transactions: `len(all_months) if all_months else 12`)
+    for q in (AN + 'export_json', AN + 'export_markdown', AN + 'print_summary', AN + 'print_sections_summary', AN + 'build_merchant_json', RP + 'write_summary_file_vue'):
+        fi = find_function(q)
+        parents = {}
+        for n in ast.walk(fi.node):
+            for c in ast.iter_child_nodes(n):
+                parents[c] = n
+        bad = []
+        for n in ast.walk(fi.node):
+            if not (isinstance(n, ast.BinOp) and isinstance(n.op, (ast.Div, ast.FloorDiv, ast.Mod))):
+                continue
+            if isinstance(n.op, ast.Mod) and isinstance(n.left, (ast.Constant, ast.JoinedStr)):
+                continue                                   # string formatting
+            if isinstance(n.right, ast.Constant):
+                if n.right.value == 0:
+                    bad.append('line %d: division by the constant 0' % n.lineno)
+                continue                                   # a number, or pathlib's `/ 'name'`
+            names = {x.id for x in ast.walk(n.right) if isinstance(x, ast.Name)} - {'len', 'abs', 'max', 'min', 'float', 'int'}
+            if names == {'num_months'}:
+                continue
+            guarded, p_ = False, n
+            while p_ in parents and not guarded:
+                q_ = parents[p_]
+                if isinstance(q_, ast.IfExp) and p_ is q_.body or isinstance(q_, ast.If) and p_ in q_.body:
+                    tested = {x.id for x in ast.walk(q_.test) if isinstance(x, ast.Name)}
+                    guarded = bool(names) and names <= tested
+                p_ = q_
+            if not guarded:
+                bad.append('line %d: %s' % (n.lineno, ast.unparse(n)[:60]))
+        out.append(frames.Clause(q + '#divisions_are_guarded', not bad, 'unguarded: %s' % bad[:4] if bad else 'every division by a data-derived quantity is under a test of it',
+                                 kind='auxiliary'))
     return out
 
 
